@@ -44,24 +44,12 @@ fn known_class(instrs: &[Instruction]) -> Option<&'static str> {
         }
     }
     fn walk(i: &Instruction) -> Option<&'static str> {
-        use quil_rs::expression::Expression;
         match i {
             Instruction::CalibrationDefinition(d) => {
-                if !d.identifier.modifiers.is_empty() {
-                    return Some("pending-fix-defcal-modifiers");
-                }
                 body(&d.instructions)
             }
             Instruction::MeasureCalibrationDefinition(d) => body(&d.instructions),
             Instruction::CircuitDefinition(d) => body(&d.instructions),
-            Instruction::Delay(d) => {
-                let plain = matches!(&d.duration, Expression::Number(c) if c.im == 0.0 && c.re >= 0.0);
-                if d.frame_names.is_empty() && !plain {
-                    Some("pending-fix-delay-duration")
-                } else {
-                    None
-                }
-            }
             Instruction::RawCapture(r) => {
                 let dur = r.duration.to_quil_or_debug();
                 if r.memory_reference.name == "i" && dur.chars().last().is_some_and(|c| c.is_ascii_digit() || c == '.') {
